@@ -57,11 +57,12 @@ pub fn add_on_empty(
 }
 
 /// Applies the generated batches, in order, to ONE fresh memtable of `capacity`. Per batch:
-/// whether it was accepted (`false` = `ArenaFull`) and the arena size after the call.
+/// whether it was accepted (`false` = `ArenaFull`), the arena size after the call and the bytes
+/// still reserved after it (no call is in flight then).
 pub fn add_sequence(
 	capacity: usize,
 	batches: &[Vec<(usize, usize)>],
-) -> Result<Vec<(bool, usize)>, String> {
+) -> Result<Vec<(bool, usize, usize)>, String> {
 	let mem = MemTable::new(capacity);
 	let mut out = Vec::new();
 	let mut seq = 1u64;
@@ -70,8 +71,8 @@ pub fn add_sequence(
 		batch.set_starting_seq_num(seq);
 		seq += entries.len() as u64;
 		match mem.add(&batch) {
-			Ok(()) => out.push((true, mem.size())),
-			Err(crate::error::Error::ArenaFull) => out.push((false, mem.size())),
+			Ok(()) => out.push((true, mem.size(), mem.verif_reserved())),
+			Err(crate::error::Error::ArenaFull) => out.push((false, mem.size(), mem.verif_reserved())),
 			Err(e) => return Err(e.to_string()),
 		}
 	}
